@@ -14,16 +14,35 @@ Proof.
   - apply bit_exact, Hd. - apply lognot_exact, Hd.
 Qed.
 
-(* on the value domain: exact values whatever the representation; operands untouched except by round *)
+(* no operation alters an operand, whatever the operands are *)
+Theorem operands_untouched o args : o_args (m_op o args) = args.
+Proof.
+  destruct o as [ | | | |m| | | | | | | |c|b| ]; cbn [m_op]; try reflexivity.
+  - unfold m_sub. destruct args as [|a [|? ?]]; reflexivity.
+  - unfold m_div. destruct args as [|a [|? ?]]; try reflexivity.
+    destruct a as [[|[?|?|]|?]|z|n d|]; try reflexivity.
+    + destruct (z =? 0); [reflexivity|]. destruct (z =? 1); reflexivity.
+    + destruct (n =? 0); reflexivity.
+  - apply round_operands.
+  - unfold m_mod. destruct args as [|n [|d [|? ?]]]; try reflexivity.
+    destruct (norm_kind n d); try reflexivity; destruct (as_int d =? 0); reflexivity.
+  - unfold m_rem. destruct args as [|n [|d [|? ?]]]; try reflexivity.
+    destruct (norm_kind n d); try reflexivity; destruct (as_int d =? 0); reflexivity.
+  - unfold m_abs. destruct args as [|[?|?|? ?|] [|? ?]]; reflexivity.
+  - unfold m_inc. destruct args as [|[?|?|? ?|] [|? ?]]; reflexivity.
+  - unfold m_inc. destruct args as [|[?|?|? ?|] [|? ?]]; reflexivity.
+  - unfold m_lognot. destruct args as [|[?|?|? ?|] [|? ?]]; reflexivity.
+Qed.
+
+(* on the value domain: exact values whatever the representation *)
 Theorem value_exact o args :
   value_domain o args = true ->
   exists so, s_out o args = Some so /\
     res_same_value (o_res so) (o_res (m_op o args)) = true /\
-    (o <> ORound Round -> o_args (m_op o args) = args).
+    o_args (m_op o args) = args.
 Proof.
   intros Hd. destruct o as [ | | | |m| | | | | | | |c|b| ]; try discriminate Hd; cbn [value_domain] in Hd.
-  - destruct (round_value_exact m args Hd) as (so & H1 & H2 & H3). exists so. repeat split; try assumption.
-    intros Hm. apply H3. congruence.
+  - destruct (round_value_exact m args Hd) as (so & H1 & H2 & H3). exists so. auto.
   - destruct (modrem_value_exact OMod args (or_introl eq_refl) Hd) as (so & H1 & H2 & H3). exists so. auto.
   - destruct (modrem_value_exact ORem args (or_intror eq_refl) Hd) as (so & H1 & H2 & H3). exists so. auto.
   - destruct (bit_value_exact b args Hd) as (so & H1 & H2 & H3). exists so. auto.
